@@ -836,7 +836,7 @@ func (ad *Adversary) Build(t *core.Tape, op string, hist []IssuedMsg) (*Attack, 
 		if m == nil {
 			return nil, false
 		}
-		kind := t.Int(5, "adv.enc.kind")
+		kind := t.Int(6, "adv.enc.kind")
 		d := parse(m)
 		root := el(d)
 		a := firstByTag(root, "Assertion")
@@ -870,6 +870,12 @@ func (ad *Adversary) Build(t *core.Tape, op string, hist []IssuedMsg) (*Attack, 
 			}
 			pt = elString(view)
 			atk.Detail = "cut-from-signed-response"
+		case 5: // a genuine signed assertion re-encrypted by the attacker (anyone can encrypt to the SP)
+			if m.Logical.Assertions[0].Sign == nil {
+				return nil, false
+			}
+			pt = elString(view)
+			atk.Detail = "genuine-signed-reencrypted"
 		case 3: // not an assertion at all
 			pt = `<saml:Advice xmlns:saml="` + NSAssertion + `"><saml:NameID>mallory</saml:NameID></saml:Advice>`
 			atk.Detail = "non-assertion"
@@ -891,6 +897,22 @@ func (ad *Adversary) Build(t *core.Tape, op string, hist []IssuedMsg) (*Attack, 
 		}
 		placeSel := t.Int(4, "adv.enc.place")
 		removeSig(root)
+		if kind == 5 {
+			// the genuine assertion travels encrypted; a forged plain sibling carries the same ID
+			forged, fdesc := evilCopy(a, 0, t)
+			root.RemoveChild(a)
+			if t.Bool("adv.enc.forgedfirst") {
+				root.AddChild(forged)
+				root.AddChild(exd.Root())
+				fdesc += ",forged-first"
+			} else {
+				root.AddChild(exd.Root())
+				root.AddChild(forged)
+			}
+			atk.Detail += ",same-id-forged-sibling," + fdesc
+			atk.XML = docString(d)
+			return atk, true
+		}
 		if placeSel != 1 {
 			root.RemoveChild(a)
 		} else {
